@@ -11,7 +11,8 @@ TECHNIQUE = "Hypothesis round-trip properties + mutation of valid encodings with
 RULE = ("families: base32, base62 (+_l variants), netstring/split_netstring, UEB pack/unpack_extension, LeaseInfo immutable/mutable records through "
         "the v1/v2 lease serializers, immutable and mutable container headers through ShareFile/MutableShareFile. Each case is either a round trip "
         "of generated values (edge values: 0, 2^31-1, 2^31, 2^32-1, empty, 1-byte, ...) or a mutation (byte edit, truncation, extension, length-prefix "
-        "edit) of a valid encoding. Non-trivial = mutated encodings and round trips with an edge value; distinct by (family, input).")
+        "edit) of a valid encoding. Non-trivial = mutated encodings and round trips with an edge value; distinct by (family, input)."
+        ' The container family also creates mutable containers with write enablers of 0/3/31/33/40 bytes: refused, or recognised afterwards with no padded/truncated variant accepted.')
 LEVEL_TEXT = ("Round trip exactness for every codec named by the property, plus mutation testing: a mutated encoding must be rejected (any exception) or decode "
               "to exactly what a strict reference decoder reads. Lenient numeral spellings accepted by int() are counted separately and only required to "
               "decode to the value of the same digits.")
